@@ -120,6 +120,8 @@ type engine struct {
 	verdict [3]int // IsValidBlockHash, IsValidVersionedHashes, NotifyNewPayload
 	flavour int    // which kind of error an "error" verdict returns
 	calls   []seen
+	// flagWithErr: some query was answered (true, error)
+	flagWithErr bool
 }
 
 // An engine client fails in different ways; all of them are engine faults while the CALLER's context is
@@ -135,7 +137,12 @@ func (e *engine) answer(i int) (bool, error) {
 	case vInvalid:
 		return false, nil
 	case vError:
-		return false, engineErrors[(e.flavour+i)%len(engineErrors)]
+		// the verdict flag beside an error carries no meaning; a client may leave it at either value
+		flag := (e.flavour/len(engineErrors)+i)%2 == 1
+		if flag {
+			e.flagWithErr = true
+		}
+		return flag, engineErrors[(e.flavour+i)%len(engineErrors)]
 	}
 	return true, nil
 }
@@ -349,7 +356,10 @@ func engineFaults(r *report.Run, l *sim.Lock, st *step, fork int, refPost *refsp
 		allValid := v == [3]int{}
 		if !allValid {
 			if err == nil {
-				return report.Failf("engine/accepted-unapproved-payload", "%s: the transition reports success", desc)
+				return report.Failf("engine/accepted-unapproved-payload", "%s: the transition reports success (an error answer came with the verdict flag set: %v)", desc, eng.flagWithErr)
+			}
+			if eng.flagWithErr {
+				r.Hit("engine-error-with-verdict-flag-set:" + forkName)
 			}
 			// the error must come from the payload processing, not from the state-root comparison at the end
 			// (a transition that skipped the engine would leave a state whose root does not match, and "fail" for that reason only)
@@ -659,7 +669,7 @@ func TestCheck(t *testing.T) {
 		return
 	}
 	r.Mandatory("cancel-reason:canceled", "cancel-reason:deadline-exceeded", "cancel:phase0", "cancel:altair", "cancel:bellatrix", "cancel:capella", "cancel:deneb", "epoch-processing-step", "step-with>=5-polls-over>=2-sites",
-		"engine-fault:bellatrix", "engine-fault:capella", "engine-fault:deneb", "engine-all-valid:bellatrix", "engine-all-valid:capella", "engine-all-valid:deneb", "versioned-hashes-nonempty")
+		"engine-fault:bellatrix", "engine-fault:capella", "engine-fault:deneb", "engine-error-with-verdict-flag-set:bellatrix", "engine-error-with-verdict-flag-set:capella", "engine-error-with-verdict-flag-set:deneb", "engine-all-valid:bellatrix", "engine-all-valid:capella", "engine-all-valid:deneb", "versioned-hashes-nonempty")
 	opts := sim.GenOpts{CustomPct: 90, AllowMainnet: false, MaxSlots: 36, BlockPct: 65, MaxSkip: 2, OpsBias: 50, MaxN: 40}
 	r.Mandatory("large-registry:epoch-boundary-step", "large-registry:phase0", "large-registry:altair")
 	r.Search(t, "large-registry", 1, r.N(16, 96), func(rt *rapid.T) (any, *report.Failure) {
